@@ -5,7 +5,7 @@ package engine
 
 // One iteration of an instance: acquire, wait for a token, shoot or discard, release.
 //@ func (i *instance) Run#lit1
-//@ props C03 C04
+//@ props C03 C04 C06 C10
 //@ requires waiter.lastNow <= now && i.metrics.Request != i.metrics.Response
 //@ may_panic true
 //@ ensures [waiter-clock] waiter.lastNow <= now
@@ -27,7 +27,7 @@ package engine
 //@ at call i.gun.Shoot assert [not-early] done(ctx) || now >= let_of(waiter.Wait, next)
 
 //@ func (i *instance) Run
-//@ props C03 C05 C12
+//@ props C03 C05 C12 C06
 //@ env i.metrics.Request != i.metrics.Response && i.metrics.InstanceFinish != i.metrics.Request && i.metrics.InstanceFinish != i.metrics.Response
 //@ env i.metrics.InstanceStart != i.metrics.Request && i.metrics.InstanceStart != i.metrics.Response && i.metrics.InstanceStart != i.metrics.InstanceFinish
 //@ ghost dReq = counterVal[i.metrics.Request]
